@@ -11,7 +11,11 @@ Open Scope Z_scope.
 Ltac bridge := intros; cbv beta delta [gen_filter_ignore_underscores gen_ctx_is_ignored gen_ctx_is_included
   gen_order_drops_underscore_names gen_included_action gen_walk_is_match gen_walk_order_error gen_walk_checks_before_yield
   gen_walk_leftover_error gen_sync_check gen_sync_keeps_skipping gen_sync_checks_before_yield gen_lj_gets_default
-  gen_lj_final_ok gen_change_at gen_change_offsets gen_fast_path gen_join_key_and_payload_index gen_get_data_names_first
+  gen_lj_final_ok gen_change_at gen_change_offsets gen_fast_path gen_join_key_and_payload_index gen_get_data_names_first gen_cg_get_iter_stops_on_stopiteration gen_cg_args_in_list_order
+  gen_cg_streamnode_pulls_first_eagerly gen_pull_order_get_data gen_pull_order_reduce gen_pull_order_field
+  gen_streamable_zips_in_arg_order gen_pull_order_zip m_cg_args_in_list_order m_cg_get_iter_stops_on_stopiteration
+  m_cg_streamnode_pulls_first_eagerly m_streamable_zips_in_arg_order m_pull_order_get_data m_pull_order_reduce
+  m_pull_order_field m_pull_order_zip SRC_NAMES SRC_DATA SRC_SIZES SRC_FIRST
   m_filter_ignore_underscores m_ctx_is_ignored m_ctx_is_included m_order_drops_underscore_names m_included_action
   m_walk_is_match m_walk_order_error m_walk_checks_before_yield m_walk_leftover_error m_sync_check m_sync_keeps_skipping
   m_sync_checks_before_yield m_lj_gets_default m_lj_final_ok m_change_at m_change_offsets m_fast_path
@@ -64,6 +68,19 @@ Lemma b_join_key_and_payload_index : gen_join_key_and_payload_index = m_join_key
 Proof. bridge. Qed.
 Lemma b_get_data_names_first : gen_get_data_names_first = m_get_data_names_first.
 Proof. bridge. Qed.
+
+(* the pull machine: how get_iter / ComputationNode / StreamNode / zip ask their sources, and in which order each
+   public call lists its leaves (0 contig names, 1 the synchronised data stream, 2 contig sizes, 3 the first zip stream) *)
+Lemma b_pull_machine :
+  gen_cg_get_iter_stops_on_stopiteration = m_cg_get_iter_stops_on_stopiteration
+  /\ gen_cg_args_in_list_order = m_cg_args_in_list_order
+  /\ gen_cg_streamnode_pulls_first_eagerly = m_cg_streamnode_pulls_first_eagerly
+  /\ gen_streamable_zips_in_arg_order = m_streamable_zips_in_arg_order.
+Proof. repeat split; bridge. Qed.
+Lemma b_pull_orders :
+  gen_pull_order_get_data = m_pull_order_get_data /\ gen_pull_order_reduce = m_pull_order_reduce
+  /\ gen_pull_order_field = m_pull_order_field /\ gen_pull_order_zip = m_pull_order_zip.
+Proof. repeat split; bridge. Qed.
 
 (* ---------- (b) the model's state machines follow the named rules ---------- *)
 Section Steps.
